@@ -97,7 +97,7 @@ func workerInit() {
 var baselines = map[string]uint64{}
 
 func baseline(dec string) uint64 {
-	if !strings.HasPrefix(dec, "hs:") && !strings.HasPrefix(dec, "hr:") {
+	if !strings.HasPrefix(dec, "hs:") && !strings.HasPrefix(dec, "hr:") && !strings.HasPrefix(dec, "hq:") {
 		return 0
 	}
 	if b, ok := baselines[dec[3:]]; ok {
@@ -219,6 +219,66 @@ func decodeMore(dec string, in []byte) ([]uint64, string, error) {
 		}
 		lastTerm = "CJson " + sessTerm(c2.VerifC04JSONLeaves(s)) + " " + vh.Bytes(b)
 		return []uint64{uint64(len(b))}, extra, nil
+	case dec == "recvseq":
+		// the input is a sequence of stream-form Packets; each is handed to receive(s, l, &p) on the
+		// ONE Session of device A (Session.frags is carried along), until the first error
+		l := c2.VerifC04Listener(serverKeys, &c2.VerifC04Mux{}, nil, nil)
+		h, err := c2.VerifC04Encode(nil, nil, c2.VerifC04Hello(devA(), false))
+		if err != nil {
+			return nil, "setup:cannot encode the hello: " + err.Error(), nil
+		}
+		serveOne(l, h)
+		if !c2.VerifC04Registered(l, devA()) {
+			return nil, "setup:the valid hello did not register", nil
+		}
+		c := data.NewChunk(in)
+		k := 0
+		for c.Remaining() > 0 {
+			p := new(com.Packet)
+			if err := p.UnmarshalStream(c); err != nil {
+				return nil, "", err
+			}
+			if k, err = c2.VerifC04ReceiveFrags(l, devA(), p); err != nil {
+				return nil, "", err
+			}
+			c2.VerifC04Pump(l)
+		}
+		return []uint64{uint64(k)}, "", nil
+	case strings.HasPrefix(dec, "hq:"):
+		// a sequence of connections to one Listener after a valid registration of device A:
+		// the input is [u16 length][wire bytes] repeated, every piece is one connection
+		p := profileByName(dec[3:])
+		if p == nil {
+			return nil, "", fmt.Errorf("unknown profile %s", dec)
+		}
+		l := c2.VerifC04Listener(serverKeys, &c2.VerifC04Mux{}, p.w, p.t)
+		h, err := c2.VerifC04Encode(p.w, p.t, c2.VerifC04Hello(devA(), false))
+		if err != nil {
+			return nil, "setup:cannot encode the hello: " + err.Error(), nil
+		}
+		serveOne(l, h)
+		if !c2.VerifC04Registered(l, devA()) {
+			return nil, "setup:the valid hello did not register", nil
+		}
+		n := 0
+		for i := 0; i+2 <= len(in); {
+			k := int(in[i])<<8 | int(in[i+1])
+			if i += 2; i+k > len(in) {
+				k = len(in) - i
+			}
+			serveOne(l, in[i:i+k])
+			i += k
+			n++
+		}
+		extra := ""
+		hb, err := c2.VerifC04Encode(p.w, p.t, c2.VerifC04Hello(devB(), false))
+		if err == nil {
+			serveOne(l, hb)
+		}
+		if !c2.VerifC04Registered(l, devB()) {
+			extra = "stopped:a valid hello is no longer registered after the hostile connections"
+		}
+		return []uint64{uint64(n)}, extra, nil
 	case dec == "recv":
 		// receive(s, l, &p) on the Session of device A; the input is the stream form of p
 		l := c2.VerifC04Listener(serverKeys, &c2.VerifC04Mux{}, nil, nil)
@@ -604,6 +664,102 @@ func generateMore(corpus bool) {
 				x[45+rng.Intn(len(x)-45)] = byte(rng.U64())
 			}
 			run("recv", x, "random")
+		}
+	}
+	// ---- sequences of fragment-flag Packets to ONE registered Session: through receive() with the
+	// model (recvseq: one Packet after the other; recv: the same Packets inside one Multi container)
+	// and through the real handle() (hq: one connection each; hr: the Multi container)
+	{
+		a := devA()
+		type fp struct {
+			id      uint8
+			job     uint16
+			grp     uint16
+			ln, pos uint16
+			empty   bool
+		}
+		mk := func(f fp) *com.Packet {
+			v := &com.Packet{ID: f.id, Job: f.job, Device: a}
+			v.Flags.SetGroup(f.grp)
+			v.Flags.SetLen(f.ln)
+			v.Flags.SetPosition(f.pos)
+			if !f.empty {
+				v.Write(pat(3+int(f.pos), byte(f.grp)))
+			}
+			return v
+		}
+		var seqs [][]fp
+		for _, L := range []uint16{2, 3} {
+			for mask := 0; mask < 1<<L; mask++ {
+				var in []fp
+				for p := uint16(0); p < L; p++ {
+					in = append(in, fp{0xC0, 7, 8, L, p, mask&(1<<p) != 0})
+				}
+				rev := make([]fp, len(in))
+				for i := range in {
+					rev[len(in)-1-i] = in[i]
+				}
+				dup := append(append([]fp{}, in...), in[0])
+				dup2 := append([]fp{in[0], in[0]}, in[1:]...)
+				beyond := append([]fp{in[0], {0xC0, 7, 8, L, L + 3, mask&1 != 0}}, in[1:]...)
+				seqs = append(seqs, in, rev, dup, dup2, beyond)
+			}
+		}
+		for _, L := range []uint16{0, 1, 65535} {
+			for _, e := range []bool{false, true} {
+				seqs = append(seqs, []fp{{0xC0, 7, 8, L, 0, e}}, []fp{{0xC0, 7, 8, L, 0, e}, {0xC0, 7, 8, L, 1, e}},
+					[]fp{{0xC0, 7, 8, L, 0, e}, {0xC0, 7, 8, 2, 1, !e}, {0xC0, 7, 8, 2, 0, e}})
+			}
+		}
+		for mask := 0; mask < 16; mask++ { // two interleaved groups of two parts
+			seqs = append(seqs, []fp{{0xC0, 7, 8, 2, 0, mask&1 != 0}, {0xC1, 9, 9, 2, 0, mask&2 != 0}, {0xC0, 7, 8, 2, 1, mask&4 != 0}, {0xC1, 9, 9, 2, 1, mask&8 != 0}})
+		}
+		for mask := 0; mask < 4; mask++ { // a second part that does not belong (other Job / other ID), then the right one
+			seqs = append(seqs, []fp{{0xC0, 7, 8, 3, 0, mask&1 != 0}, {0xC0, 9, 8, 3, 1, mask&2 != 0}, {0xC0, 7, 8, 3, 1, false}},
+				[]fp{{0xC0, 7, 8, 3, 0, mask&1 != 0}, {0xC1, 7, 8, 3, 1, mask&2 != 0}, {0xC0, 7, 8, 3, 2, true}})
+		}
+		for i := 0; i < 10*nRandom; i++ {
+			var q []fp
+			for k := 2 + rng.Intn(4); k > 0; k-- {
+				q = append(q, fp{uint8(0xC0 + rng.Intn(2)), uint16(7 + 2*rng.Intn(2)), uint16(8 + rng.Intn(2)),
+					[]uint16{0, 1, 2, 2, 3, 3, 65535}[rng.Intn(7)], uint16(rng.Intn(4)), rng.Intn(2) == 0})
+			}
+			seqs = append(seqs, q)
+		}
+		none := profileByName("none")
+		for i, q := range seqs {
+			class := "fragseq"
+			if i >= len(seqs)-10*nRandom {
+				class = "fragseq-random"
+			}
+			var stream, conns data.Chunk
+			top := &com.Packet{ID: 0, Flags: com.FlagMulti, Device: a}
+			for _, f := range q {
+				v := mk(f)
+				v.MarshalStream(&stream)
+				v.MarshalStream(top)
+				w := plainBytes(mk(f))
+				conns.WriteUint16(uint16(len(w)))
+				conns.Write(w)
+			}
+			top.Flags.SetLen(uint16(len(q)))
+			top.Flags &^= com.FlagFrag
+			var tc data.Chunk
+			top.MarshalStream(&tc)
+			run("recvseq", payload(&stream), class)
+			run("recv", payload(&tc), class)
+			run("hq:none", payload(&conns), class)
+			runHandle("hr", none, plainBytes(top), class)
+			if i%7 == 0 {
+				p := profiles[1+(i/7)%(len(profiles)-1)]
+				var pc data.Chunk
+				for _, f := range q {
+					w := encode(p, mk(f))
+					pc.WriteUint16(uint16(len(w)))
+					pc.Write(w)
+				}
+				run("hq:"+p.name, payload(&pc), class)
+			}
 		}
 	}
 	// ---- base64 shift transform (modelled)
